@@ -35,7 +35,7 @@ type CV struct {
 // 3 MyInt (named int), 4 *S0, 5 *S1. Payload p = 0 is the zero value of the type.
 // Types with a concat function registered by this harness (user.go): 6 Acc, 7 Lim.
 // 8 []string (p = 0 nil, p = 1 empty but not nil, p > 1 p-1 elements; a slice is the zero Value iff nil).
-// 9 Num (user.go): an INTERFACE type with a function registered for the interface type; p = Val(),
+// 10 the twin of S0 (see below). 9 Num (user.go): an INTERFACE type with a function registered for the interface type; p = Val(),
 // S = "A" NumA(p), "B" NumB{p}, "" the nil Num (p = 0). Only used as the static chunk type of a stream.
 type S0 struct{ A int }
 type S1 struct{ B int }
@@ -51,10 +51,28 @@ func (s S0) Tag() int { return s.A }
 // MyMap: a NAMED map type (MT 4): concatMaps must build the result with the chunk type itself
 type MyMap map[string]string
 
-const nOtherTags = 10
+const nOtherTags = 11
+
+// 10: the TWIN of S0 — a different Go type with the same name and the same package path (a type declared
+// inside a function): reflect.Type identity tells the two apart, their printed name "main.S0" does not.
+// Only reachable through these three closures (the type has no name at package level).
+var (
+	mkTwin     func(p int) any
+	isTwin     func(x any) (int, bool)
+	concatTwin func(vals []any, errAt int) (any, error)
+)
+
+func init() {
+	type S0 struct{ A int }
+	mkTwin = func(p int) any { return S0{A: p} }
+	isTwin = func(x any) (int, bool) { t, ok := x.(S0); return t.A, ok }
+	concatTwin = func(vals []any, errAt int) (any, error) { return concatTyped[S0](vals, errAt) }
+}
 
 func otherToGo(tag, p int, variant string) any {
 	switch tag {
+	case 10:
+		return mkTwin(p)
 	case 9:
 		switch {
 		case variant == "B":
@@ -175,6 +193,11 @@ func (v *CV) toGo() any {
 }
 
 func fromGo(x any) *CV {
+	if x != nil {
+		if p, ok := isTwin(x); ok {
+			return &CV{K: "other", Tag: 10, P: p}
+		}
+	}
 	switch t := x.(type) {
 	case nil:
 		return &CV{K: "nil"}
@@ -350,9 +373,11 @@ func concatAnyGo(chunks []*CV) (o Obs) {
 	}
 	var out any
 	var err error
+	pre := snapshotVals(vals)
 	p := lib.Recover(func() {
 		out, err = compose.VerifConcatStreamReader(schema.StreamReaderFromArray(vals))
 	})
+	compareVals(pre, vals)
 	if p != nil {
 		return Obs{Class: "panic", Msg: fmt.Sprint(p)}
 	}
@@ -406,6 +431,32 @@ func renderNum(o Obs) Obs {
 	return o
 }
 
+// genericMut: set by the generic entry points below when a call wrote to one of the chunk values it
+// was given (a map chunk that gained / lost a key or changed a value, a pointed-to struct that was
+// written): the chunk values are rendered before and after the call and compared.  Run resets and
+// reads it (inputs must not be written to: the same chunk objects may be concatenated again).
+var genericMut string
+
+func snapshotVals(vals []any) []*CV {
+	out := make([]*CV, len(vals))
+	for i, v := range vals {
+		out[i] = fromGo(v)
+	}
+	return out
+}
+
+func compareVals(pre []*CV, vals []any) {
+	if genericMut != "" {
+		return
+	}
+	for i, v := range vals {
+		if post := fromGo(v); !reflect.DeepEqual(pre[i], post) {
+			genericMut = fmt.Sprintf("input chunk %d was modified: it was %s, now it is %s", i, js(pre[i]), js(post))
+			return
+		}
+	}
+}
+
 // concatGo runs concatStreamReader on the chunk list at its static type.
 func concatGo(chunks []*CV) (o Obs) { return concatGoErr(chunks, -1) }
 
@@ -435,6 +486,8 @@ func concatGoErr(chunks []*CV, errAt int) (o Obs) {
 	}
 	var out any
 	var err error
+	pre := snapshotVals(vals)
+	defer func() { compareVals(pre, vals) }()
 	p := lib.Recover(func() {
 		if len(chunks) == 0 {
 			out, err = concatTyped[string](vals, errAt)
@@ -442,6 +495,10 @@ func concatGoErr(chunks []*CV, errAt int) (o Obs) {
 		}
 		if isNumCase(chunks) {
 			out, err = concatTyped[Num](vals, errAt)
+			return
+		}
+		if _, ok := isTwin(vals[0]); ok && vals[0] != nil {
+			out, err = concatTwin(vals, errAt)
 			return
 		}
 		switch vals[0].(type) {
@@ -598,17 +655,18 @@ const (
 	tdMapInt
 	tdMapIK // map[int]string
 	tdMyMap // MyMap
+	tdS0Twin // the twin of S0 (same printed name, different type)
 	tdNil
 	nTD
 	tdNum = nTD // the interface type Num: only as the static chunk type of a stream
 )
 
 // same reflect.Kind, different Go type
-var sibling = map[int]int{tdStr: tdMyStr, tdMyStr: tdStr, tdInt: tdMyInt, tdMyInt: tdInt, tdS0: tdS1, tdS1: tdAcc,
+var sibling = map[int]int{tdStr: tdMyStr, tdMyStr: tdStr, tdInt: tdMyInt, tdMyInt: tdInt, tdS0: tdS0Twin, tdS0Twin: tdS0, tdS1: tdAcc,
 	tdPS0: tdPS1, tdPS1: tdPS0, tdMapAny: tdMapStr, tdMapStr: tdMyMap, tdMyMap: tdMapInt, tdMapInt: tdMapIK, tdMapIK: tdMapAny, tdAcc: tdLim, tdLim: tdS0}
 
 var tdNames = []string{"string", "int", "int64", "bool", "float64", "S0", "S1", "MyStr", "MyInt", "*S0", "*S1", "Acc", "Lim", "[]string",
-	"map[string]any", "map[string]string", "map[string]int", "map[int]string", "MyMap", "nil", "Num"}
+	"map[string]any", "map[string]string", "map[string]int", "map[int]string", "MyMap", "S0(twin)", "nil", "Num"}
 
 func genVal(r *lib.Rng, td, depth int) *CV {
 	payload := []int{0, 0, 1, 2}[r.Intn(4)]
@@ -619,8 +677,8 @@ func genVal(r *lib.Rng, td, depth int) *CV {
 		return &CV{K: "num", Kind: map[int]int{tdInt: 0, tdInt64: 1, tdFloat: 3}[td], Z: int64(r.Range(-2, 3))}
 	case tdBool:
 		return &CV{K: "num", Kind: 2, Z: int64(r.Intn(2))}
-	case tdS0, tdS1, tdMyStr, tdMyInt, tdPS0, tdPS1:
-		return &CV{K: "other", Tag: map[int]int{tdS0: 0, tdS1: 1, tdMyStr: 2, tdMyInt: 3, tdPS0: 4, tdPS1: 5}[td], P: payload}
+	case tdS0, tdS1, tdMyStr, tdMyInt, tdPS0, tdPS1, tdS0Twin:
+		return &CV{K: "other", Tag: map[int]int{tdS0: 0, tdS1: 1, tdMyStr: 2, tdMyInt: 3, tdPS0: 4, tdPS1: 5, tdS0Twin: 10}[td], P: payload}
 	case tdStrSlice:
 		return &CV{K: "other", Tag: 8, P: []int{0, 0, 1, 2, 3}[r.Intn(5)]}
 	case tdAcc, tdLim:
@@ -815,6 +873,7 @@ func (engine) Run(ci any) lib.Result {
 			}
 		}
 	}
+	genericMut = ""
 	o := concatGo(c.Chunks)
 	res.Obs = o
 	res.Tags = []string{"kind:generic", "class:" + o.Class, fmt.Sprintf("chunks:%d", len(c.Chunks))}
@@ -869,7 +928,7 @@ func (engine) Run(ci any) lib.Result {
 			}
 		}
 	}
-	// direct oracle: total (no panic), deterministic, re-chunking invariant
+	// direct oracle: total (no panic), deterministic, re-chunking invariant, inputs not written to
 	switch {
 	case res.Oracle != "":
 	case o.Class == "panic":
@@ -923,6 +982,10 @@ func (engine) Run(ci any) lib.Result {
 				}
 			}
 		}
+	}
+	if genericMut != "" && res.Oracle == "" {
+		res.Oracle = genericMut
+		res.Sig = "generic-input-mutated"
 	}
 	return res
 }
@@ -994,7 +1057,7 @@ func goTypeName(v *CV) string {
 	case "num":
 		return []string{"int", "int64", "bool", "float64"}[v.Kind]
 	case "other":
-		return []string{"S0", "S1", "MyStr", "MyInt", "*S0", "*S1", "Acc", "Lim", "[]string", "Num"}[v.Tag]
+		return []string{"S0", "S1", "MyStr", "MyInt", "*S0", "*S1", "Acc", "Lim", "[]string", "Num", "S0(twin)"}[v.Tag]
 	case "map":
 		if v.MT == 1 {
 			return "map[string]string"
@@ -1014,7 +1077,7 @@ func goTypeName(v *CV) string {
 }
 
 var kindOf = map[string]string{"string": "string", "MyStr": "string", "int": "int", "MyInt": "int", "S0": "struct", "S1": "struct",
-	"*S0": "ptr", "*S1": "ptr", "Acc": "struct", "Lim": "struct", "[]string": "slice", "map[string]any": "map", "map[string]string": "map", "map[string]int": "map", "map[int]string": "map", "MyMap": "map", "Num": "interface", "int64": "int64", "bool": "bool", "float64": "float64"}
+	"*S0": "ptr", "*S1": "ptr", "S0(twin)": "struct", "Acc": "struct", "Lim": "struct", "[]string": "slice", "map[string]any": "map", "map[string]string": "map", "map[string]int": "map", "map[int]string": "map", "MyMap": "map", "Num": "interface", "int64": "int64", "bool": "bool", "float64": "float64"}
 
 // clashTags reports whether some key (at any depth, following the first map per key) holds
 // values of different Go types, and whether two of them share a reflect.Kind.
